@@ -1,4 +1,5 @@
 import HmfVerif.Real.Tactics
+import HmfVerif.Proofs.TableLemmas
 import HmfVerif.Gen.ExprTransfer
 import HmfVerif.Gen.ExprFlow
 import HmfVerif.Spec.Transfer
@@ -272,5 +273,53 @@ end EHNoBAO
 
 /-- the only threshold in the table-driven models is the documented low-k flatness test; no new special case -/
 theorem guards_transfer_models : Gen.Guards.transferModels = Spec.Guards.transferModels := by decide
+
+/-! ## Table-driven models (`FromFile`, `FromArray`): statements about `Hmf.Table` (hand-written model of `lnt` and `_check_low_k`,
+tied to the implementation by the `TABLE` correspondence of the harness) -/
+section table
+open Hmf.Table
+
+/-- C10: whenever the requested range starts inside the table (equality with the first tabulated wavenumber included), every
+    tabulated value is reproduced at its node, for all tables with strictly increasing wavenumbers and all requests -/
+theorem table_nodes_reproduced (a : RK) (rest : List RK) (x0 : ℝ) (hs : Sorted (a :: rest)) (h : a.1 ≤ x0) :
+    ∀ kn ∈ a :: rest, interp (knots (a :: rest) x0) kn.1 = kn.2 := by
+  rw [knots_inside a rest x0 h]; exact interp_node _ hs
+
+/-- … and between nodes the result stays between the smallest and the largest tabulated value (so `0 < T ≤ 1` tables stay so) -/
+theorem table_between_nodes_bounded (a : RK) (rest : List RK) (x0 lo hi x : ℝ) (hs : Sorted (a :: rest)) (h : a.1 ≤ x0)
+    (hb : ∀ kn ∈ a :: rest, lo ≤ kn.2 ∧ kn.2 ≤ hi) (hx1 : a.1 ≤ x) (hx2 : ∀ z, (a :: rest).getLast? = some z → x ≤ z.1) :
+    lo ≤ interp (knots (a :: rest) x0) x ∧ interp (knots (a :: rest) x0) x ≤ hi := by
+  rw [knots_inside a rest x0 h]
+  exact interp_bounds _ hs lo hi x hb (by intro a' ha'; simp at ha'; subst ha'; exact hx1) hx2 (by simp)
+
+/-- C10 ("extend it finitely and continuously outside"): for a request starting below the table the value at the request's first
+    wavenumber is a tabulated value (that of row `start`), and the patched knots are still strictly increasing -/
+theorem table_extension_below (a : RK) (rest : List RK) (x0 : ℝ) (hs : Sorted (a :: rest)) (hlen : 1 ≤ rest.length) (h : x0 < a.1) :
+    (∃ r, (a :: rest)[start (a :: rest)]? = some r ∧ interp (knots (a :: rest) x0) x0 = r.2) ∧ Sorted (knots (a :: rest) x0) := by
+  rw [knots_below a rest x0 h]
+  have hl : 2 ≤ (a :: rest).length := by simp only [List.length_cons]; omega
+  have hm : ∀ b, (a :: rest).head? = some b → x0 < b.1 := by intro b hb; simp at hb; subst hb; exact h
+  exact ⟨checkLowK_value_at_min _ x0 hs hl hm, checkLowK_sorted _ x0 hs hl hm⟩
+
+/-- C10 (grid independence of tabulated models): the value at a wavenumber at or beyond the second kept row does not depend on
+    whether the request started below the table or inside it -/
+theorem table_value_independent_of_request_start (a : RK) (rest : List RK) (x0 x1 x : ℝ) (hs : Sorted (a :: rest))
+    (h0 : x0 < a.1) (h1 : a.1 ≤ x1) (hlen : start (a :: rest) + 3 ≤ (a :: rest).length)
+    (hx : ∀ b, (a :: rest)[start (a :: rest) + 1]? = some b → b.1 ≤ x) :
+    interp (knots (a :: rest) x0) x = interp (knots (a :: rest) x1) x := by
+  rw [knots_below a rest x0 h0, knots_inside a rest x1 h1]
+  exact checkLowK_same_beyond_patch _ x0 x hs hlen hx
+
+/-- the low-k patch never drops the last tabulated row and keeps at least two knots -/
+theorem table_patch_keeps_last_row (tab : List RK) (m : ℝ) (h : 2 ≤ tab.length) :
+    (checkLowK tab m).getLast? = tab.getLast? ∧ 2 ≤ (checkLowK tab m).length := by
+  refine ⟨checkLowK_getLast tab m h, ?_⟩
+  rw [checkLowK_length tab m h]; have := start_lt tab h; omega
+
+/-- non-vacuity: a concrete table with a non-flat first interval followed by a flat one; `start = 1`, the request below the table
+    gets the value of row 1 at its first wavenumber -/
+example : start ([(0, 3), (1, 2), (2, 2), (3, 1)] : List RK) = 1 := by
+  simp [start, firstFlat, flat]; norm_num
+end table
 
 end Hmf.C10
